@@ -64,7 +64,7 @@ class Grover(QAlgorithm):
         else:
             self.oracle = oracle
 
-        oracle_qc = self.oracle.circuit()
+        oracle_qc = self.oracle.circuit().copy()
 
         # Add negative phase to result
         oracle_qc.add_qubit(name="_ret_phased")
